@@ -5,6 +5,8 @@ go 1.25.0
 require (
 	github.com/cespare/xxhash/v2 v2.2.0
 	github.com/elk-language/elk v0.0.0
+	github.com/fatih/color v1.15.0
+	github.com/rivo/uniseg v0.4.7
 )
 
 require (
@@ -20,7 +22,6 @@ require (
 	github.com/charmbracelet/x/cellbuf v0.0.13-0.20250311204145-2c3ea96c31dd // indirect
 	github.com/charmbracelet/x/term v0.2.1 // indirect
 	github.com/elk-language/go-prompt v1.3.1 // indirect
-	github.com/fatih/color v1.15.0 // indirect
 	github.com/google/go-cmp v0.6.0 // indirect
 	github.com/lucasb-eyer/go-colorful v1.2.0 // indirect
 	github.com/mattn/go-colorable v0.1.14 // indirect
@@ -30,7 +31,6 @@ require (
 	github.com/muesli/cancelreader v0.2.2 // indirect
 	github.com/muesli/termenv v0.16.0 // indirect
 	github.com/pkg/term v1.2.0-beta.2 // indirect
-	github.com/rivo/uniseg v0.4.7 // indirect
 	github.com/xo/terminfo v0.0.0-20220910002029-abceb7e1c41e // indirect
 	golang.org/x/exp v0.0.0-20250305212735-054e65f0b394 // indirect
 	golang.org/x/sync v0.20.0 // indirect
